@@ -212,5 +212,56 @@ theorem buildTimers_perm_invariant (l l' : List (Nat × Nat)) (h : l.Perm l') :
   simp only [List.append_nil] at p1 p2
   exact p1.trans (h.trans p2.symm)
 
+/-! ## sorting node ids -/
+
+open SimHarness in
+theorem insNat_perm (x : Nat) : ∀ l, (insNat x l).Perm (x :: l)
+  | [] => List.Perm.refl _
+  | y :: ys => by
+    simp only [insNat]
+    split
+    · exact List.Perm.refl _
+    · exact (List.Perm.cons y (insNat_perm x ys)).trans (List.Perm.swap x y ys)
+
+open SimHarness in
+theorem insNat_sorted (x : Nat) : ∀ l, l.Pairwise (· ≤ ·) → (insNat x l).Pairwise (· ≤ ·)
+  | [], _ => by simp [insNat]
+  | y :: ys, h => by
+    simp only [insNat]
+    have hy := List.pairwise_cons.mp h
+    split
+    · rename_i hle
+      refine List.pairwise_cons.mpr ⟨?_, h⟩
+      intro z hz
+      rcases List.mem_cons.mp hz with rfl | hz
+      · exact hle
+      · exact Nat.le_trans hle (hy.1 z hz)
+    · rename_i hle
+      refine List.pairwise_cons.mpr ⟨?_, insNat_sorted x ys hy.2⟩
+      intro z hz
+      rcases List.mem_cons.mp (((insNat_perm x ys).mem_iff).mp hz) with rfl | hz
+      · omega
+      · exact hy.1 z hz
+
+open SimHarness in
+theorem sortNat_perm : ∀ l, (sortNat l).Perm l
+  | [] => List.Perm.refl _
+  | x :: xs => by
+    simp only [sortNat, List.foldr_cons]
+    exact (insNat_perm x _).trans (List.Perm.cons x (sortNat_perm xs))
+
+open SimHarness in
+theorem sortNat_sorted : ∀ l, (sortNat l).Pairwise (· ≤ ·)
+  | [] => List.Pairwise.nil
+  | x :: xs => by
+    simp only [sortNat, List.foldr_cons]
+    exact insNat_sorted x _ (sortNat_sorted xs)
+
+open SimHarness in
+/-- sorting forgets the order of its input -/
+theorem sortNat_perm_invariant (l l' : List Nat) (h : l.Perm l') : sortNat l = sortNat l' :=
+  List.Perm.eq_of_pairwise (le := (· ≤ ·)) (fun _ _ _ _ h1 h2 => Nat.le_antisymm h1 h2)
+    (sortNat_sorted l) (sortNat_sorted l') ((sortNat_perm l).trans (h.trans (sortNat_perm l').symm))
+
 end SimLemmas
 end RedisVerif
